@@ -835,6 +835,9 @@ type pattern struct {
 	minus string
 	plus  string
 	meta  string
+	// a fixed package/import head for the patch and a declaration to put before or after the instances
+	forceHead string
+	extraDecl string
 }
 
 var identRe = func(s string) bool {
@@ -978,6 +981,16 @@ func (g *gen) derivePlus(p *pattern) string {
 
 // makePattern builds a random pattern together with its source fragment.
 func (g *gen) makePattern() (*pattern, bool) {
+	if g.chance(map[string]float64{"c11": 0.1, "c03": 0.06, "c05": 0.06, "c10": 0.04, "mix": 0.04}[g.mode]) {
+		// a bare name replaced by a qualified one from a package the patch imports; the file also declares the name,
+		// a place where the replacement does not fit (after or before the places where it does)
+		name := g.pick("defaultTimeout", "maxRetries", "oldLimit")
+		pkgq := g.pick("config", "settings")
+		p := &pattern{kind: kExpr, frag: name + "\n", minus: name + "\n", plus: pkgq + "." + strings.ToUpper(name[:1]) + name[1:] + "\n",
+			forceHead: "+import \"example.com/app/" + pkgq + "\"\n\n",
+			extraDecl: g.pick("var "+name+" = 30\n", "const "+name+" = 30\n", "func "+name+"() int { return 30 }\n", "var (\n\tother = 1\n\t"+name+" = 30\n)\n")}
+		return p, true
+	}
 	k := fragKind(g.r.Intn(4))
 	if g.chance(0.25) {
 		k = kExpr
@@ -1744,7 +1757,17 @@ func genEngineCases(seed int64, n int, mode string) []Case {
 			}
 		}
 		ic := g.importClause(p)
+		if p.forceHead != "" {
+			ic = importCase{filePkg: "p", patchHead: p.forceHead, fileImports: []string{`"fmt"`, `"time"`}, note: " imports forced-head"}
+		}
 		src := g.fileWith(p, frags, ic.filePkg, ic.fileImports)
+		if p.extraDecl != "" {
+			if g.chance(0.5) {
+				src += "\n" + p.extraDecl
+			} else if i := strings.Index(src, "\nfunc "); i >= 0 {
+				src = src[:i+1] + p.extraDecl + "\n" + src[i+1:]
+			}
+		}
 		if !parses(src) {
 			continue
 		}
